@@ -131,6 +131,32 @@ PROPS = {
                 "evaluates the Misuse predicate on the parsed program and requires error iff (parse error or misuse); "
                 "non-trivial = distinct (source, parameters)",
     },
+    "C14": {
+        "case_sets": ["hist"],
+        "ops": ["HIST", "FIRSTUSE"],
+        "race": True,
+        "oracle_clauses": [r"c14-.*", r"unreadable-.*"],
+        "lean_targets": ["PqlModel.Props.C14"],
+        "facts": ["pkgVars", "pkgVarWrites", "parameterMapWrites"],
+        "rule": "HIST: one (source, parameters) pair compiled k times from each of 2-64 goroutines, interleaved with Parse/Scan "
+                "of the same source and Compile of other sources, in a race-detector build; every result must equal the model's "
+                "function value and the caller's map must be unchanged. FIRSTUSE: a fresh process whose first library calls are "
+                "2-32 simultaneous Compile calls. non-trivial = distinct history",
+        "assumptions": ["real schedules, the Go memory model and the race detector are runtime: the -race runs are supporting evidence, "
+                        "the theorem covers the abstract sync.Once protocol and the write-site facts"],
+    },
+    "C16": {
+        "case_sets": ["cli"],
+        "ops": ["CLI"],
+        "oracle_clauses": [r"c16-.*", r"unreadable-.*"],
+        "lean_targets": ["PqlModel.Props.C16a"],
+        "facts": [],
+        "rule": "CLI: the built cmd/pql binary on scripts (sequences of let / query / invalid statements, several per line, across "
+                "lines, comments, blank lines, CRLF, final statement terminated or not, lines around the 64 KiB limit) via stdin, "
+                "one file, several files (statements spanning file boundaries) and -o; stdout, exit status and error count are "
+                "compared with the loop model and with the whole-input specification; non-trivial = distinct (script, mode)",
+        "assumptions": ["bufio, file opening, partial writes and terminal detection are OS plumbing: modelled as in Model/Cli.lean"],
+    },
 }
 
 
